@@ -40,15 +40,15 @@ OPS = {
 
 def base_consts(**kw):
     c = dict(NR=3, Writer0=[1, 2, 1], Lid=["X", "X", "X"], Fn="LWW", MaxE=4, MaxOps=6, PCs={1},
-             Sizes=set(), Writers=set(), Denied=[set(), set(), set()], HashPerm="id", IterOn=set(), Evil=set(), Kinds=set(), MaxBad=0, PubOn=set(), WriteFaults=False, ForkOn=set(), LoadKinds=set(), CrossFork=False, Payloads={"p"})
+             Sizes=set(), Writers=set(), Denied=[set(), set(), set()], HashPerm="id", IterOn=set(), Evil=set(), Kinds=set(), MaxBad=0, PubOn=set(), WriteFaults=False, ForkOn=set(), LoadKinds=set(), CrossFork=False, Payloads={"p"}, ForkModes={"copy"})
     c.update(kw)
     return c
 
 
-def harness_cfg(consts, seed, codec="cbor", audit="", concurrency=0, payload=""):
+def harness_cfg(consts, seed, codec="cbor", audit="", concurrency=0, payload="", shared_options=False, clock_base=0):
     return {"Concurrency": concurrency, "NR": consts["NR"], "Writer0": list(consts["Writer0"]), "Lid": list(consts["Lid"]),
             "Fn": consts["Fn"], "Denied": [sorted(d) for d in consts["Denied"]], "Codec": codec, "Seed": seed,
-            "Audit": audit, "Payload": payload}
+            "Audit": audit, "Payload": payload, "SharedOptions": shared_options, "ClockBase": clock_base}
 
 
 def explore(specdir, name, consts, invs, props, workers=NCPU, timeout=1500, simulate=None, seed=1):
@@ -227,7 +227,7 @@ def run_family_l(prop, tier, seed, report, scratch, binpath, plans):
         if not scripts:
             raise Inconclusive("TLC exported no history for " + plan["name"])
         hcfg = harness_cfg(consts, seed, plan.get("codec", "cbor"), plan.get("audit", ""), plan.get("concurrency", 0),
-                           plan.get("payload", ""))
+                           plan.get("payload", ""), plan.get("shared_options", False), plan.get("clock_base", 0))
         t1 = time.time()
         try:
             trace = replay(binpath, scratch, plan["name"], hcfg, scripts, plan.get("mode", "last"),
